@@ -266,6 +266,12 @@ def check(ctx, rep):
     rule_nodetype(ctx, rep)
     rule_bare_genexp(ctx, rep)
     rule_template_parses(ctx, rep)
+    from .c07 import rule_no_dup_keyword
+
+    rule_no_dup_keyword(ctx, rep)
+    from .c03 import rule_codec_agree
+
+    rule_codec_agree(ctx, rep)
     rep.not_covered += [
         "validity of libcst code generation for arbitrary trees (the core of the property)",
         "node removal / flattening inside blocks (RemovalSentinel leaving an empty suite) — libcst raises, the pipeline records a failure",
